@@ -167,6 +167,18 @@ func (e *Engine) ifaceContractByType(recvT types.Type, mname string) *Contract {
 // funcValueCall handles calls through function-typed parameters declared in the contract (pure / called-once ghosts).
 func (e *Engine) funcValueCall(f *Frame, st *State, cc *ssa.CallCommon, fv Val, args []Val, rt types.Type, pos token.Pos) (Val, bool) {
 	e.siteCall(f, st, cc.Value.Name(), args, pos)
+	// an unknown function may write through its pointer arguments: those objects become arbitrary
+	for _, a := range args {
+		if a.T == nil {
+			continue
+		}
+		if p, ok := a.T.Underlying().(*types.Pointer); ok {
+			if pt, ok := e.ptrTerm(a); ok {
+				e.havocLoc(st, modLoc{kind: "obj", base: pt, rootT: p.Elem()})
+				e.assumed["functions called through function values write only the objects their pointer arguments point to"] = true
+			}
+		}
+	}
 	if fv.S == "" {
 		return Val{}, false
 	}
@@ -747,7 +759,15 @@ func (e *Engine) globalFacts(st *State, g *ssa.Global, v Val) {
 	if info.nonNil && v.S != "" {
 		switch v.T.Underlying().(type) {
 		case *types.Interface:
-			e.sc.Decl("gfact:"+v.S, fmt.Sprintf("(assert (not (= %s iface.nil)))", v.S))
+			if !e.sc.declared["gfact:"+v.S] {
+				e.sc.declared["gfact:"+v.S] = true
+				e.sc.Line(fmt.Sprintf("(assert (not (= %s iface.nil)))", v.S))
+			}
+		case *types.Signature:
+			if !e.sc.declared["gfact:"+v.S] {
+				e.sc.declared["gfact:"+v.S] = true
+				e.sc.Line(fmt.Sprintf("(assert (not (= %s func.nil)))", v.S))
+			}
 		}
 	}
 }
@@ -792,11 +812,11 @@ func (e *Engine) globalInfo(g *ssa.Global) *gInfo {
 		case *ssa.Call:
 			if c := x.Common().StaticCallee(); c != nil {
 				switch c.String() {
-				case "errors.New", "fmt.Errorf":
+				case "errors.New", "fmt.Errorf", "sync.OnceFunc":
 					gi.nonNil = true
 				}
 			}
-		case *ssa.MakeInterface:
+		case *ssa.MakeInterface, *ssa.MakeClosure, *ssa.Function:
 			gi.nonNil = true
 		}
 	}
